@@ -109,8 +109,30 @@ func bigCases(shard, shards int, tier string, yield func(Case) bool) {
 			if !yield(Case{W: w, H: h, Ctor: 2, Jag: jag}) {
 				return
 			}
-			// ... and the script on each constructor in turn (String on the one-row shape of every fourth count up to 2^17 cells)
-			c := Case{W: w, H: h, Ctor: (i + j) % 3, Ops: bigScript(w, h, j == 0 && i%4 == 0 && n <= 1<<17)}
+			// ... the rows of a flat matrix / of another Array2D as views: in order, two rows between the first and the last exchanged,
+			// one of them a value short, one of them replaced by the first (a one-copy path may exist from some size on)
+			if h >= 3 {
+				v := &View{Stride: w, Rows: h, Via: (i+j)%2 == 1, Clip: (i+j)%4 >= 2}
+				vc := Case{W: w, H: h, Ctor: 2, Jag: []int{w}, JagN: h, View: v}
+				a, b := 1, h-2
+				switch (i + j) % 4 {
+				case 1:
+					if b == a {
+						b = h - 1
+					}
+					v.Set = [][2]int{{a, b * w}, {b, a * w}}
+				case 2:
+					vc.JagSet = [][2]int{{h / 2, w - 1}}
+				case 3:
+					v.Set = [][2]int{{h / 2, 0}}
+				}
+				if !yield(vc) {
+					return
+				}
+			}
+			// ... and the script on each constructor in turn (String on the one-row shape of every fourth count up to 2^17 cells),
+			// with GOMAXPROCS left alone or set to 1, 2, 3, 5, 6, 7 in turn
+			c := Case{W: w, H: h, Ctor: (i + j) % 3, Ops: bigScript(w, h, j == 0 && i%4 == 0 && n <= 1<<17), Procs: []int{0, 2, 1, 3, 5, 0, 7, 6}[(i*3+j)%8]}
 			if c.Ctor == 2 {
 				c.Jag = jag
 			}
@@ -131,7 +153,7 @@ func bigCases(shard, shards int, tier string, yield func(Case) bool) {
 			for _, n := range []int{1<<k - 1, 1<<k + 1, 1<<k + 1<<(k-1) + 1} {
 				for j, s := range bigShapes(n)[:4] {
 					w, h := s[0], s[1]
-					if !yield(Case{T: T, W: w, H: h, Ctor: 1, FillV: -(j % 2)}) || !yield(Case{T: T, W: w, H: h, Ctor: j % 3, Ops: bigScript(w, h, false)}) {
+					if !yield(Case{T: T, W: w, H: h, Ctor: 1, FillV: -(j % 2)}) || !yield(Case{T: T, W: w, H: h, Ctor: j % 3, Ops: bigScript(w, h, false), Procs: []int{0, 2, 3, 7, 1, 5, 6}[(j+k)%7]}) {
 						return
 					}
 				}
@@ -144,10 +166,12 @@ var specBig = pbt.Register(&pbt.Spec[Case]{
 	Property: "C08", Name: "C08.big",
 	Rule: "enumerated: for every n in {2^k-1, 2^k, 2^k+1, 1.5*2^k-1, 1.5*2^k, 1.5*2^k+1 : k = 5..17 (thorough 20)} + {100, 1000, 10^4, 10^5, 65x64, 100x100, 3*4096+1, 5*4096-1, " +
 		"7*4096+2048, 8192+4095, 65536+4097, 2*65536-3, ...} the shapes n x 1, 1 x n, ceil(n/3) x 3, 3 x ceil(n/3), s x (s+1), (s+1) x s (s = floor sqrt n) and an exact factorisation " +
-		"near the square root: New2DFilled alone (ordinary value; a special value incl. the zero value), New2DFromJagged with h+1 rows of w+1 / shorter values, and on one constructor " +
+		"near the square root: New2DFilled alone (ordinary value; a special value incl. the zero value), New2DFromJagged with h+1 rows of w+1 / shorter values, New2DFromJagged with the h >= 3 rows of a flat " +
+		"matrix or of another Array2D given as views (in order; two middle rows exchanged; a middle row one value short; a middle row replaced by the first), and on one constructor " +
 		"in turn the script Fill whole grid / lower right part with swapped corners / all but the border columns / zero value over everything / all but the border rows / one column " +
 		"(or the last row), Clone with later writes on one side, Row and RowSpan windows written through and kept, Set at the last cell, calls just outside; so filled runs and copied " +
-		"rows of every length around every power of two up to 2^17 (2^20) occur as a whole store, as one row of a rectangle and as a column; the same on the powers 6, 9, 12, 13 (16 for u8 and unit) " +
+		"rows of every length around every power of two up to 2^17 (2^20) occur as a whole store, as one row of a rectangle and as a column; the scripts run with GOMAXPROCS as it is (16 here) and set to " +
+		"1, 2, 3, 5, 6, 7 in turn; the same on the powers 6, 9, 12, 13 (16 for u8 and unit) " +
 		"for the element types u8 (1 byte), f64x2 (16), slice (24, pointers), padded (96), any, unit (zero-size); " + rule,
 	Enum: func(shard, shards int, tier string, yield func(Case) bool) { bigCases(shard, shards, tier, yield) },
 	Run:  Run,
